@@ -186,6 +186,7 @@ func init() {
 		c07director(x, w)
 		c07responseWriter(x, fd)
 		c07requestTouch(x, fd)
+		c07gateTouch(x)
 		c07mainWiring(x)
 		c07norouteStore(x)
 		return nil
@@ -836,9 +837,11 @@ func c07touches(x *X, dir string, fd *ast.FuncDecl, param string, depth int, see
 					if pk, ok := f.X.(*ast.Ident); ok && pk.Name == "trace" && dir != "trace" {
 						cdir = "trace"
 						callee = x.anyFuncDecl("trace", f.Sel.Name)
+					} else if c07followMethods {
+						callee = x.anyFuncDecl(dir, f.Sel.Name) // a method of the package, found by name
 					}
 				}
-				if callee != nil && callee.Recv == nil {
+				if callee != nil && (callee.Recv == nil || c07followMethods) {
 					if pn := paramOf(callee, i); pn != "" {
 						c07touches(x, cdir, callee, pn, depth+1, seen, out)
 					}
@@ -847,6 +850,80 @@ func c07touches(x *X, dir string, fd *ast.FuncDecl, param string, depth int, see
 		}
 		return true
 	})
+}
+
+// c07followMethods: the walk of c07touches also follows the request into methods of the same package (by name).
+var c07followMethods bool
+
+// c07gateTouch: what the stages that stand between the client's request and the handler, but live outside package
+// proxy, do to the request they are handed: the lookup (route.Table.Lookup), the access gate
+// (route.Target.AccessDeniedHTTP), the authorization gate (route.Target.Authorized and every implementation of
+// auth.AuthScheme: each method named Authorized in package auth that takes a *http.Request). They judge the request;
+// the model hands the same request on to the URL construction and the header stage.
+//
+//	gateCalls / gateStores / gateBodyMentions  as request* above, over all of them
+//	gateWalked                                 the functions of package route the walk started from
+//	gateSchemes                                the Authorized methods of package auth it covered
+func c07gateTouch(x *X) {
+	c07followMethods = true
+	defer func() { c07followMethods = false }()
+	out := map[string]bool{}
+	var walked, schemes []string
+	reqParam := func(fd *ast.FuncDecl) string {
+		if fd == nil || fd.Type.Params == nil {
+			return ""
+		}
+		for _, p := range fd.Type.Params.List {
+			if strings.HasSuffix(x.src(p.Type), "http.Request") && len(p.Names) > 0 {
+				return p.Names[0].Name
+			}
+		}
+		return ""
+	}
+	start := func(dir, recv, name string) {
+		fd := x.funcDecl(dir, recv, name)
+		if pn := reqParam(fd); pn != "" {
+			c07touches(x, dir, fd, pn, 0, map[string]bool{}, out)
+			walked = append(walked, dir+"."+recv+"."+name)
+		} else {
+			x.fail("%s: %s.%s takes no *http.Request any more", dir, recv, name)
+		}
+	}
+	start("route", "Table", "Lookup")
+	start("route", "Target", "AccessDeniedHTTP")
+	start("route", "Target", "Authorized")
+	for _, f := range x.files("auth") {
+		for _, d := range f.Decls {
+			fd, ok := d.(*ast.FuncDecl)
+			if !ok || fd.Recv == nil || fd.Body == nil || fd.Name.Name != "Authorized" {
+				continue
+			}
+			if pn := reqParam(fd); pn != "" {
+				c07touches(x, "auth", fd, pn, 0, map[string]bool{}, out)
+				t := fd.Recv.List[0].Type
+				if st, ok := t.(*ast.StarExpr); ok {
+					t = st.X
+				}
+				schemes = append(schemes, "auth."+x.src(t)+".Authorized")
+			}
+		}
+	}
+	var calls, stores, mentions []string
+	for k := range out {
+		switch {
+		case strings.HasPrefix(k, "call "):
+			calls = append(calls, strings.TrimPrefix(k, "call "))
+		case strings.HasPrefix(k, "store "):
+			stores = append(stores, strings.TrimPrefix(k, "store "))
+		default:
+			mentions = append(mentions, strings.TrimPrefix(k, "mention "))
+		}
+	}
+	x.defSortedStrList("gateCalls", calls)
+	x.defSortedStrList("gateStores", stores)
+	x.defSortedStrList("gateBodyMentions", mentions)
+	x.defSortedStrList("gateWalked", walked)
+	x.defSortedStrList("gateSchemes", schemes) // the implementations of auth.AuthScheme the walk found
 }
 
 func c07requestTouch(x *X, serve *ast.FuncDecl) {
